@@ -95,6 +95,11 @@ def bond_oracle(case, stats):
                 rev = U.bond_params(b, a, bond_order=bo, bond_order_rules=rules)
                 if not same(got, rev):
                     raise Violation("bond-reversal", "%s-%s: %r vs reversed %r" % (a, b, got, rev))
+        # guessed order again after the calls with user rules
+        got = U.bond_params(a, b)
+        if not same(got, ref_uff.bond(T, a, b)):
+            raise Violation("bond-params-history", "%s-%s evaluated again without rules after calls with rules: %r, formulas give %r" %
+                            (a, b, got, ref_uff.bond(T, a, b)))
     stats.evaluations += n - 1
     stats.extra_nontrivial += n - len(RULESETS) - 3
     stats.count("bond-evaluations", n)
@@ -234,13 +239,15 @@ def torsion_oracle(case, stats):
         # bond order handling of the central bond
         for rules in RULESETS[1:]:
             for bo in (None, 2):
-                n += 1
                 a, d = reps[0], reps[-1]
-                got, exc = call(a, b, c, d, 2, rules=rules, bo=bo)
-                want, wexc = refcall(a, b, c, d, 2, rules=rules, bo=bo)
-                if (exc is None) != (wexc is None) or (exc is None and not same(got, want)):
-                    raise Violation("torsion-params-rules", "%s-%s-%s-%s M=2 rules %r bond order %r: %r, formulas give %r" %
-                                    (a, b, c, d, rules, bo, got, want))
+                # default -> with rules -> default again (state remembered between calls would show here)
+                for rr in (None, rules, None):
+                    n += 1
+                    got, exc = call(a, b, c, d, 2, rules=rr, bo=bo)
+                    want, wexc = refcall(a, b, c, d, 2, rules=rr, bo=bo)
+                    if (exc is None) != (wexc is None) or (exc is None and not same(got, want)):
+                        raise Violation("torsion-params-rules", "%s-%s-%s-%s M=2 rules %r bond order %r (call sequence default, "
+                                        "rules, default): %r, formulas give %r" % (a, b, c, d, rr, bo, got, want))
     stats.evaluations += n - 1
     stats.extra_nontrivial += n - 1
     stats.count("torsion-evaluations", n)
